@@ -25,7 +25,13 @@ spans completed by hand) and are created with `emit::new_span!` (with and withou
 (`frame.in_future`, hand-polled among siblings) or AFTER the span it was created in has ended —
 for enabled and for REJECTED spans alike (a rejected span's frame must carry the context it was
 created in). Incoming integer ids include values whose decimal text has exactly 16 / 32 digits,
-and an incoming `span_parent`.
+and an incoming `span_parent`. Scripted PANICS unwind out of chains of synchronous spans (attribute
+fns of every kind, `new_span!` + `frame.call`, `Frame::push(..).call`, `Frame::in_fn` on another
+thread) up to a `catch_unwind` at an ancestor (right around the child or levels up), after which the
+ancestor goes on emitting events and starting children and the thread runs the next, unrelated root.
+Besides the runtimes above, every tree also runs on one of ten runtimes whose context is reached
+through a forwarding wrapper (`&C`, `Box<C>`, `Arc<C>`, `Box<dyn ErasedCtxt>`, `AssertInternal<C>`,
+`Option<C>`, and stacks of two, over `ThreadLocalCtxt` and over `ListCtxt`).
 
 Oracle (a model written from the statement, walked over the tree):
 
@@ -178,6 +184,91 @@ impl_env!(
     [Routed, filter::FromFn, ListCtxt, FakeClock, CountingRng],
     &LIST_RT
 );
+
+// --- the same contexts reached through every forwarding wrapper the crate offers ------------------
+
+/// `wrap_env!(Name, STATIC, "label", CtxtType, ctxt_expr, first_rng_value);`
+macro_rules! wrap_env {
+    ($name:ident, $st:ident, $label:expr, $C:ty, $ctxt:expr, $rng:expr) => {
+        static $st: LazyLock<Runtime<Routed, filter::FromFn, $C, FakeClock, CountingRng>> =
+            LazyLock::new(|| Runtime::build(Routed, filter::FromFn::new(en_filter), $ctxt, clock(), CountingRng::starting_at($rng)));
+        impl_env!($name, $label, false, [Routed, filter::FromFn, $C, FakeClock, CountingRng], &$st);
+    };
+}
+
+type DynCtxt = dyn emit::ctxt::ErasedCtxt + Send + Sync;
+
+static TL_FOR_REF: ThreadLocalCtxt = ThreadLocalCtxt::shared();
+
+wrap_env!(EnvWrapRef, W_REF, "wrapped:&ThreadLocalCtxt", &'static ThreadLocalCtxt, &TL_FOR_REF, 1u64 << 56);
+wrap_env!(EnvWrapBox, W_BOX, "wrapped:Box<ThreadLocalCtxt>", Box<ThreadLocalCtxt>, Box::new(ThreadLocalCtxt::new()), (1u64 << 56) + (1 << 50));
+wrap_env!(
+    EnvWrapArc,
+    W_ARC,
+    "wrapped:Arc<ThreadLocalCtxt>",
+    std::sync::Arc<ThreadLocalCtxt>,
+    std::sync::Arc::new(ThreadLocalCtxt::new()),
+    (1u64 << 56) + (2 << 50)
+);
+wrap_env!(
+    EnvWrapBoxDyn,
+    W_BOXDYN,
+    "wrapped:Box<dyn ErasedCtxt>",
+    Box<DynCtxt>,
+    Box::new(ThreadLocalCtxt::new()) as Box<DynCtxt>,
+    (1u64 << 56) + (3 << 50)
+);
+wrap_env!(
+    EnvWrapAssert,
+    W_ASSERT,
+    "wrapped:AssertInternal<ThreadLocalCtxt>",
+    emit::runtime::AssertInternal<ThreadLocalCtxt>,
+    emit::runtime::AssertInternal(ThreadLocalCtxt::new()),
+    (1u64 << 56) + (4 << 50)
+);
+wrap_env!(
+    EnvWrapOption,
+    W_OPTION,
+    "wrapped:Option<ThreadLocalCtxt>",
+    Option<ThreadLocalCtxt>,
+    Some(ThreadLocalCtxt::new()),
+    (1u64 << 56) + (5 << 50)
+);
+// stacked two deep, and over the list context (whose own `open_push` is the trait default)
+wrap_env!(
+    EnvWrapArcAssert,
+    W_ARC_ASSERT,
+    "wrapped:Arc<AssertInternal<ThreadLocalCtxt>>",
+    std::sync::Arc<emit::runtime::AssertInternal<ThreadLocalCtxt>>,
+    std::sync::Arc::new(emit::runtime::AssertInternal(ThreadLocalCtxt::new())),
+    (1u64 << 56) + (6 << 50)
+);
+wrap_env!(
+    EnvWrapOptionBoxDyn,
+    W_OPTION_BOXDYN,
+    "wrapped:Option<Box<dyn ErasedCtxt>>",
+    Option<Box<DynCtxt>>,
+    Some(Box::new(ThreadLocalCtxt::new()) as Box<DynCtxt>),
+    (1u64 << 56) + (7 << 50)
+);
+wrap_env!(
+    EnvWrapArcList,
+    W_ARC_LIST,
+    "wrapped:Arc<ListCtxt>",
+    std::sync::Arc<ListCtxt>,
+    std::sync::Arc::new(ListCtxt),
+    (1u64 << 56) + (8 << 50)
+);
+wrap_env!(
+    EnvWrapAssertBoxList,
+    W_ASSERT_BOX_LIST,
+    "wrapped:AssertInternal<Box<ListCtxt>>",
+    emit::runtime::AssertInternal<Box<ListCtxt>>,
+    emit::runtime::AssertInternal(Box::new(ListCtxt)),
+    (1u64 << 56) + (9 << 50)
+);
+
+const N_WRAPPED: usize = 10;
 
 fn init_envs() {
     LazyLock::force(&TP_RT);
@@ -914,6 +1005,9 @@ fn eval<X: Env>(r: &mut Report, seed: u64, index: u64, tree: &Node) {
         );
         return;
     }
+    if X::NAME.starts_with("wrapped:") {
+        r.observe("trees:on-a-wrapped-context", 1);
+    }
     let mut o = Oracle::new(X::NAME, &run);
     let none = Amb {
         ids: Ids::EMPTY,
@@ -1004,12 +1098,22 @@ fn all_enabled(n: &Node) -> Node {
     n
 }
 
-const ENV_NAMES: [&str; 5] = [
+const ENV_NAMES: [&str; 5 + N_WRAPPED] = [
     "generic-runtime",
     "ambient-slot",
     "traceparent-runtime",
     "traceparent-setup-slot",
     "list-ctxt-default-open_push",
+    "wrapped:&ThreadLocalCtxt",
+    "wrapped:Box<ThreadLocalCtxt>",
+    "wrapped:Arc<ThreadLocalCtxt>",
+    "wrapped:Box<dyn ErasedCtxt>",
+    "wrapped:AssertInternal<ThreadLocalCtxt>",
+    "wrapped:Option<ThreadLocalCtxt>",
+    "wrapped:Arc<AssertInternal<ThreadLocalCtxt>>",
+    "wrapped:Option<Box<dyn ErasedCtxt>>",
+    "wrapped:Arc<ListCtxt>",
+    "wrapped:AssertInternal<Box<ListCtxt>>",
 ];
 
 fn eval_env(r: &mut Report, env: usize, seed: u64, index: u64, tree: &Node) {
@@ -1018,7 +1122,17 @@ fn eval_env(r: &mut Report, env: usize, seed: u64, index: u64, tree: &Node) {
         1 => eval::<EnvAmbient>(r, seed, index, tree),
         2 => eval::<EnvTraceparent>(r, seed, index, &all_enabled(tree)),
         3 => eval::<EnvTraceparentSlot>(r, seed, index, &all_enabled(tree)),
-        _ => eval::<EnvList>(r, seed, index, tree),
+        4 => eval::<EnvList>(r, seed, index, tree),
+        5 => eval::<EnvWrapRef>(r, seed, index, tree),
+        6 => eval::<EnvWrapBox>(r, seed, index, tree),
+        7 => eval::<EnvWrapArc>(r, seed, index, tree),
+        8 => eval::<EnvWrapBoxDyn>(r, seed, index, tree),
+        9 => eval::<EnvWrapAssert>(r, seed, index, tree),
+        10 => eval::<EnvWrapOption>(r, seed, index, tree),
+        11 => eval::<EnvWrapArcAssert>(r, seed, index, tree),
+        12 => eval::<EnvWrapOptionBoxDyn>(r, seed, index, tree),
+        13 => eval::<EnvWrapArcList>(r, seed, index, tree),
+        _ => eval::<EnvWrapAssertBoxList>(r, seed, index, tree),
     }
 }
 
@@ -1040,7 +1154,7 @@ fn main() {
         match case.get("env").and_then(|v| v.as_str()).and_then(|n| ENV_NAMES.iter().position(|e| *e == n)) {
             Some(e) => eval_env(&mut r, e, seed, index, &tree),
             None => {
-                for e in 0..5 {
+                for e in 0..ENV_NAMES.len() {
                     eval_env(&mut r, e, seed, index, &tree);
                 }
             }
@@ -1056,11 +1170,16 @@ fn main() {
         // natively every tree runs on both thread-local runtimes plus one of the other three
         // (rotating); under Miri (seconds per tree) one runtime per tree, rotating over the five
         if cfg!(miri) {
-            eval_env(r, (i % 5) as usize, seed, i, &tree);
+            eval_env(r, (i % (5 + N_WRAPPED as u64)) as usize, seed, i, &tree);
         } else {
+            // the typed thread-local runtime on every tree, the erased one on every other tree, one of
+            // {trace-context x2, list} and one of the ten wrapped contexts in rotation
             eval_env(r, 0, seed, i, &tree);
-            eval_env(r, 1, seed, i, &tree);
+            if i % 2 == 0 {
+                eval_env(r, 1, seed, i, &tree);
+            }
             eval_env(r, 2 + (i % 3) as usize, seed, i, &tree);
+            eval_env(r, 5 + (i % N_WRAPPED as u64) as usize, seed, i, &tree);
         }
     });
 
